@@ -180,6 +180,13 @@ func sanitize(s string) string {
 
 // FreshVar declares a new free constant.
 func FreshVar(hint string, s *Sort) *Term {
+	if s.K == KData {
+		args := make([]*Term, len(s.Data.Fields))
+		for i, f := range s.Data.Fields {
+			args[i] = FreshVar(hint+"."+f.Name, f.Sort)
+		}
+		return MkData(s, args...)
+	}
 	hint = sanitize(hint)
 	switch hint {
 	case "mod", "div", "abs", "not", "and", "or", "ite", "select", "store", "let", "forall", "exists", "distinct", "true", "false", "rem", "concat":
@@ -474,6 +481,13 @@ func Ite(c, a, b *Term) *Term {
 	if c.Op == "not" && len(c.Args) == 1 {
 		return Ite(c.Args[0], b, a)
 	}
+	if a.S.K == KData && a.Op == a.S.Data.Ctor && b.Op == a.S.Data.Ctor && !a.Var && !b.Var && len(a.Args) == len(b.Args) && len(a.Args) > 0 {
+		args := make([]*Term, len(a.Args))
+		for i := range a.Args {
+			args[i] = Ite(c, a.Args[i], b.Args[i])
+		}
+		return MkData(a.S, args...)
+	}
 	if a.S.K == KBool {
 		if a == TTrue && b == TFalse {
 			return c
@@ -503,6 +517,13 @@ func Eq(a, b *Term) *Term {
 	}
 	if a.S.String() != b.S.String() {
 		panic(fmt.Sprintf("eq sort mismatch %s vs %s (%s, %s)", a.S, b.S, a.Op, b.Op))
+	}
+	if a.S.K == KData && a.Op == a.S.Data.Ctor && b.Op == a.S.Data.Ctor && !a.Var && !b.Var && len(a.Args) == len(b.Args) && len(a.Args) > 0 {
+		cs := make([]*Term, len(a.Args))
+		for i := range a.Args {
+			cs[i] = Eq(a.Args[i], b.Args[i])
+		}
+		return And(cs...)
 	}
 	if a.Lit && b.Lit {
 		if a.Op == b.Op {
